@@ -44,7 +44,8 @@ def main():
         print("REPLAY %s" % ("holds" if ok else "FAILS"))
         return 0 if ok else 1
 
-    evidence_path = os.path.join(common.VERIF, "evidence", "%s.json" % prop)
+    out_root = os.environ.get("VERIF_OUT_DIR") or common.VERIF   # (mutation runs redirect evidence/replays elsewhere)
+    evidence_path = os.path.join(out_root, "evidence", "%s.json" % prop)
     obligations = []      # (name, discharged?)
     leanchecker = None
     axioms = {}
@@ -125,7 +126,7 @@ def main():
     tag = "%s_%s_seed%d" % (prop, args.tier, seed)
     if unlisted:
         v = unlisted[0]
-        replay_path = os.path.join(common.VERIF, "replays", tag + ".json")
+        replay_path = os.path.join(out_root, "replays", tag + ".json")
         write_json(replay_path, {"property": prop, "kind": "failing-input", "key": v["key"], "what": v["what"],
                                  "case": v["case"], "impl": v["impl"], "expected": v["expected"],
                                  "replay_cmd": "./check %s --replay %s" % (prop, os.path.relpath(replay_path, common.VERIF)),
@@ -134,7 +135,7 @@ def main():
         print("VIOLATION property=%s replay=%s" % (prop, replay_path))
         rc = 1
     elif ctx.broken:
-        replay_path = os.path.join(common.VERIF, "replays", tag + ".json")
+        replay_path = os.path.join(out_root, "replays", tag + ".json")
         write_json(replay_path, {"property": prop, "kind": "no-failing-input-found",
                                  "broken": ctx.broken[:10],
                                  "note": "the named theorem / anchor / correspondence no longer checks on this tree; "
